@@ -4,6 +4,7 @@
 package c02
 
 import (
+	"bytes"
 	"encoding/json"
 	"fmt"
 	"math/big"
@@ -63,19 +64,40 @@ func splitTags(tags []string) []string {
 	return out
 }
 
-// blame names the transaction kind most likely responsible: successful transactions with hostile
-// arguments first, then any successful transaction, else the block hooks.
-func blame(st hist.Step, res *sim.BlockRes) string {
+// normTag folds the negative / oversized amount classes into one tag each.
+func normTag(t string) string {
+	switch {
+	case strings.HasPrefix(t, "amt-neg"):
+		return "amt-neg"
+	case strings.HasPrefix(t, "amt-2^"):
+		return "amt-huge"
+	}
+	return t
+}
+
+// blame names the transaction class most likely responsible, as "<KIND>/<detail>": successful
+// transactions with hostile arguments first (detail = the hostile tag), then any successful
+// transaction, else the block hooks. For OLVM the detail says whether a contract was destroyed.
+func blame(prev, cur *ledger.Ledger, st hist.Step, res *sim.BlockRes) string {
 	var hostile, ok []string
 	for i, t := range res.Txs {
 		if t.Code != 0 || i >= len(st.Kinds) {
 			continue
 		}
-		ok = append(ok, st.Kinds[i])
+		k := st.Kinds[i]
+		detail := "-"
+		if k == "OLVM" {
+			for a := range prev.Contracts {
+				if !cur.EVMAccts[a] {
+					detail = "selfdestruct"
+				}
+			}
+		}
+		ok = append(ok, k+"/"+detail)
 		if i < len(st.Tags) {
 			for _, tg := range splitTags(st.Tags[i]) {
 				if hostileTag(tg) {
-					hostile = append(hostile, st.Kinds[i])
+					hostile = append(hostile, k+"/"+normTag(tg))
 					break
 				}
 			}
@@ -92,6 +114,23 @@ func blame(st hist.Step, res *sim.BlockRes) string {
 		return pick(ok)
 	}
 	return "hooks"
+}
+
+// olvmData extracts the call data / init code of an OLVM transaction.
+func olvmData(tx []byte) []byte {
+	var stx struct {
+		Data []byte `json:"data"`
+	}
+	if json.Unmarshal(tx, &stx) != nil {
+		return nil
+	}
+	var m struct {
+		Data []byte `json:"data"`
+	}
+	if json.Unmarshal(stx.Data, &m) != nil {
+		return nil
+	}
+	return m.Data
 }
 
 // ethRawOf extracts the embedded ethereum transaction of a lock / redeem transaction.
@@ -137,7 +176,7 @@ var tokenCurrency = map[ethcmn.Address]string{sim.TestTokenContract: "TTC"}
 func checkBlock(p sim.Params, prev, cur *ledger.Ledger, st hist.Step, res *sim.BlockRes) (*outcome, blockFacts) {
 	var f blockFacts
 	h := res.Height
-	who := blame(st, res)
+	who := blame(prev, cur, st, res)
 
 	// (1) no stored amount is negative
 	if neg := cur.Negatives(); len(neg) > 0 {
@@ -251,6 +290,8 @@ func checkBlock(p sim.Params, prev, cur *ledger.Ledger, st hist.Step, res *sim.B
 		allowed[cur].Add(allowed[cur], amt)
 	}
 
+	hooks = append(hooks, hookFacts(prev, cur, h)...)
+
 	tp, tc := prev.Totals(), cur.Totals()
 	curs := map[string]bool{}
 	for c := range tp {
@@ -321,6 +362,54 @@ func checkBlock(p sim.Params, prev, cur *ledger.Ledger, st hist.Step, res *sim.B
 		f.key = strings.Join(parts, ";") + "|" + strings.Join(hooks, ",")
 	}
 	return nil, f
+}
+
+// hookFacts names the block-level hooks that visibly moved value in this block (statistics only).
+func hookFacts(prev, cur *ledger.Ledger, h int64) []string {
+	var out []string
+	sum := func(l *ledger.Ledger, class string) *big.Int {
+		s := new(big.Int)
+		for _, e := range l.Entries {
+			if e.Class == class {
+				s.Add(s, e.Amt)
+			}
+		}
+		return s
+	}
+	if sum(cur, ledger.FeeShare).Cmp(sum(prev, ledger.FeeShare)) > 0 {
+		out = append(out, "fees-distributed")
+	}
+	for _, e := range prev.Entries {
+		if e.Height != h || e.Amt.Sign() == 0 {
+			continue
+		}
+		switch e.Class {
+		case ledger.StakeUnlocking:
+			out = append(out, "unstake-matured")
+		case ledger.Undelegating:
+			out = append(out, "undelegation-matured")
+		case ledger.ClaimPending:
+			out = append(out, "reward-withdrawal-matured")
+		}
+	}
+	known := map[string]bool{}
+	for _, u := range prev.Unstakes {
+		known[u.Key] = true
+	}
+	for _, u := range cur.Unstakes {
+		if !known[u.Key] {
+			out = append(out, "guilty-verdict-slash")
+		}
+	}
+	for id, store := range cur.Props {
+		if store != prev.Props[id] && (store == "finalized" || store == "finalize-failed") {
+			out = append(out, "proposal-"+store)
+		}
+		if store != prev.Props[id] && (store == "passed" || store == "failed") {
+			out = append(out, "proposal-"+store)
+		}
+	}
+	return uniq(out)
 }
 
 // changedRecords renders the value records of currency c that differ between two ledgers.
@@ -478,6 +567,11 @@ func uniq(l []string) []string {
 // excludedTx reports whether a drawn transaction belongs to a class excluded by a known finding
 // ("KIND:tag"; the tag amt-neg stands for every negative-amount class).
 func excludedTx(h *run.H, tx txgen.Tx) bool {
+	// known finding: a destroyed contract keeps its balance record (value duplicated); contracts whose
+	// runtime is SELFDESTRUCT(caller) are not deployed while the finding is open
+	if tx.Kind == "OLVM" && bytes.HasSuffix(olvmData(tx.Bytes), []byte{0x33, 0xff}) && h.Excluded("OLVM:selfdestruct-contract") {
+		return true
+	}
 	for _, t := range splitTags(tx.Tags) {
 		cands := []string{tx.Kind + ":" + t}
 		if strings.HasPrefix(t, "amt-neg") && t != "amt-neg" {
